@@ -584,6 +584,10 @@ theorem step_async (c : Cfg) (ar aq : Nat) (s : S) (l : Label) (hl : l ≠ .work
     Step s (step c s l) := by
   cases l with
   | work => exact absurd rfl hl
+  | lateResp k d t =>
+    simp only [step]
+    rw [lateBackoff_noop c ar aq s k d t h]
+    exact Step.refl s
   | upResp k code d t => exact step_upResp c ar aq s k code d t h
   | upRespS k code d t => exact step_upRespS c ar aq s k code d t h
   | upReset k r =>
